@@ -3,6 +3,7 @@
  * commands (besides the generic ones of vh.c):
  *   src <path> <hex>            write an LPC source file below the (scratch) mudlib
  *   user <oid>                  make the object interactive (create_test_interactive) - needed by input_to
+ *   maxdepth <n>                MaxCallDepth = n for this case (4..50)
  *   setcg <oid|0>               command_giver = object (harness level, persists)
  *   snap                        print the register snapshot
  *   probe                       run the fixed probe evaluation (apply "probe" in object `probe`)
@@ -355,6 +356,14 @@ static int c05_cmd (char *line)
   n = vh_split (copy, tok, 16);
   if (n == 0)
     return 0;
+  if (!strcmp (tok[0], "maxdepth") && n == 2)
+    {
+      /* MaxCallDepth for this case (the control stack was allocated with the configured, larger value) */
+      int v = atoi (tok[1]);
+      if (v >= 4 && v <= 50)
+        CONFIG_INT (__MAX_CALL_DEPTH__) = v;
+      return 1;
+    }
   if (!strcmp (tok[0], "maxk") && n == 2)
     {
       c05_maxk = atol (tok[1]);
